@@ -202,6 +202,20 @@ def sequence_case(ctx, case):
                            'first': a_name, 'second': b_name},
                           f'{a_name}(set {ai}) then {b_name}(set {bi}): {r1!r} got {[x.hex()[:16] for x in (st1 or [])]} '
                           f'want {[x.hex()[:16] for x in sta + st0]}')
+    # the optional cache entries are governed by tape flags 3-9; with any of them unset by the script itself (or set again)
+    # the second instruction still yields the same items
+    if a_name == b_name:
+        B = sets[0][b_name]
+        r0, st0, _ = run(B)
+        for k in range(3, 10):
+            for instr in ('UNSET_FLAG', 'SET_FLAG'):
+                n += 1
+                r1, st1, _ = run(op(instr) + b'\x01' + bytes([k]) + B)
+                ctx.ran(); ctx.trans(2)
+                ctx.state(('seq-flag', b_name, instr, k))
+                if r0 is None and (r1 is not None or st1 != st0):
+                    ctx.violation({'block': 'sequences', 'clause': 'result independent of the optional-cache flags', 'op': b_name},
+                                  f'{instr} {k} then {b_name}: {r1!r} {[x.hex()[:16] for x in (st1 or [])]}')
     ctx.evaluations += n - 1
 
 
